@@ -23,7 +23,9 @@ func TestVerif_C28(t *testing.T) {
 	if !venum.Thorough() {
 		vals = []string{"", "a", "a.b-c_~", "client_id", "device_code_client_id", "true"}
 	}
-	resources := []string{"https://api.example.com", "https://api.example.com/vgi", "https://api.example.com/vgi/", "https://api.example.com/client_id", "http://localhost:8080/a?client_id=x"}
+	resources := []string{"https://api.example.com", "https://api.example.com/vgi", "https://api.example.com/vgi/", "https://api.example.com/client_id", "http://localhost:8080/a?client_id=x",
+		// valid URLs whose path carries the header's own separators
+		"https://api.example.com/tenants/a,b/vgi", "https://api.example.com/v1;rev=2/vgi", "https://api.example.com/a=b/c, d"}
 
 	venum.Explore(t, venum.Cfg{Name: "www-authenticate-roundtrip", Shardable: true}, func(x *venum.X) {
 		m := &OAuthResourceMetadata{
